@@ -142,10 +142,91 @@ fn c14_interleaving_search() -> (bool, String) {
     (false, format!("{} runs (streams up to 2+2, all merges, with/without update_watermark(0)): emitted multiset == reference join", runs))
 }
 
+/// second bounded search, for shapes the first one does not reach: one event on one side against up to THREE on the other (one key,
+/// timestamps 5, 100, 6, 0 in every order: in-window events need not be contiguous in the buffer), every merge, optionally after an
+/// initial `update_watermark(W)` on the EMPTY node (W = 0, 500: nothing can be evicted, but every later event is "late").
+/// No watermark call after the first event, so nothing is ever evicted and the emitted multiset must equal the reference join.
+fn c14_interleaving_search_one_vs_three() -> (bool, String) {
+    let tss = [5u64, 100, 6, 0];
+    let mut many: Vec<Vec<u64>> = vec![vec![]];
+    for a in tss {
+        many.push(vec![a]);
+        for b in tss {
+            many.push(vec![a, b]);
+            for c in tss {
+                many.push(vec![a, b, c]);
+            }
+        }
+    }
+    let mut one: Vec<Vec<u64>> = vec![vec![]];
+    for a in tss {
+        one.push(vec![a]);
+    }
+    let cond: fn(&StreamEvent, &StreamEvent) -> bool = |_, _| true;
+    let mut runs = 0u64;
+    for swap in [false, true] {
+        for few in &one {
+            for lots in &many {
+                let (ls, rs) = if swap { (lots, few) } else { (few, lots) };
+                let lev: Vec<StreamEvent> = ls.iter().enumerate().map(|(i, t)| ev(&format!("l{}", i), "left", *t, Some("A"))).collect();
+                let rev: Vec<StreamEvent> = rs.iter().enumerate().map(|(i, t)| ev(&format!("r{}", i), "right", *t, Some("A"))).collect();
+                let mut want: Vec<(String, String)> = Vec::new();
+                for l in &lev {
+                    for r in &rev {
+                        let d = (l.metadata.timestamp as i64 - r.metadata.timestamp as i64).abs();
+                        if d <= 10 {
+                            want.push((l.id.clone(), r.id.clone()));
+                        }
+                    }
+                }
+                want.sort();
+                let n = lev.len() + rev.len();
+                for mask in 0u32..(1u32 << n) {
+                    if mask.count_ones() as usize != lev.len() {
+                        continue;
+                    }
+                    for w0 in [None, Some(0i64), Some(500i64)] {
+                        runs += 1;
+                        let mut node = node(10, cond);
+                        let mut got: Vec<(String, String)> = Vec::new();
+                        if let Some(w) = w0 {
+                            for j in node.update_watermark(w) {
+                                got.push((j.left.unwrap().id, j.right.unwrap().id));
+                            }
+                        }
+                        let (mut li, mut ri) = (0, 0);
+                        let mut order = String::new();
+                        for p in 0..n {
+                            let out = if mask & (1 << p) != 0 {
+                                order.push('L');
+                                li += 1;
+                                node.process_left(lev[li - 1].clone())
+                            } else {
+                                order.push('R');
+                                ri += 1;
+                                node.process_right(rev[ri - 1].clone())
+                            };
+                            for j in out {
+                                got.push((j.left.unwrap().id, j.right.unwrap().id));
+                            }
+                        }
+                        got.sort();
+                        if got != want {
+                            return (true, format!("key A, window 10, cond=true, left ts={:?} right ts={:?} order={} initial update_watermark={:?} (on the empty node; no later watermark call, nothing evicted): emitted {:?}, reference {:?}", ls, rs, order, w0, got, want));
+                        }
+                    }
+                }
+            }
+        }
+    }
+    (false, format!("{} runs (1 vs up to 3 events, all merges, optional initial watermark on the empty node): emitted multiset == reference join", runs))
+}
+
 pub fn witnesses() -> Vec<crate::W> {
     vec![
         ("c14_flag_collision_duplicate", c14_flag_collision_duplicate as fn() -> (bool, String)),
         // c14_timestamp_overflow (ts >= 2^63 overflows the i64 subtraction in debug builds) is outside the quantifier (small timestamp domain): kept as a function, not run
         ("c14_interleaving_search", c14_interleaving_search),
+        ("c14_interleaving_search_one_vs_three", c14_interleaving_search_one_vs_three),
     ]
 }
